@@ -27,11 +27,8 @@ def run(ctx):
     # E1 + E2 + E3 ---------------------------------------------------------------------------
     tr_cover = fc.cover_replay(ctx, exe, 'then', WHAT, fixed=fixed)
     ctx.sample_trace(tr_cover, 14, skip=6)
-    models = [('wall0', 'when_all / when_any of nothing'),
-              ('wany1', 'when_any of one input: callback vs inline winner'),
-              ('wall1', 'when_all of one input, result copied to a second thread'),
-              ('wallts', 'when_all registered with a task set: taskSet.wait() => ready'),
-              ('tset', 'future + continuation bound to a task set, abstract pool with 1 worker')]
+    models = [('g19', 'empty when_all / when_any | when_any of one (callback vs inline winner) | when_all of one, result shared | '
+                      'when_all with a task set | future + continuation bound to a task set')]
     if thorough:
         models += [('then2', 'two threads chain continuations while the antecedent completes'),
                    ('wall', 'when_all of two inputs racing their completion'),
@@ -42,16 +39,16 @@ def run(ctx):
     # E4 + E3 --------------------------------------------------------------------------------
     rng = random.Random(ctx.seed * 31 + 5)
     fixedprogs = [fc.gen.MC[k] for k in ('then', 'then2', 'exc', 'wall', 'wall1', 'wany', 'wany1', 'wall0')]
-    fc.run_and_validate(ctx, exe, fixedprogs, WHAT, 'model programs, random schedules', n=24 if thorough else 6,
-                        seed=ctx.seed, pct=3, spurious=True, fixed=fixed)
-    nq, npool = (60, 60) if thorough else (8, 8)
+    nq, npool = (60, 60) if thorough else (6, 6)
     progs_q = [fc.gen.random_program(rng, 'q') for _ in range(nq)]
     progs_p = [fc.gen.random_program(rng, 'pool') for _ in range(npool)]
     ctx.sample({'programs': progs_q[:2] + progs_p[:3]})
-    fc.run_and_validate(ctx, exe, progs_q, WHAT, 'random programs, manual queue + ImmediateInvoker', n=8 if thorough else 4,
-                        seed=ctx.seed + 11, pct=3, fixed=fixed)
-    tr = fc.run_and_validate(ctx, exe, progs_p, WHAT, 'random programs, real ThreadPool TaskSet NewThreadInvoker',
-                             n=8 if thorough else 3, seed=ctx.seed + 12, pct=3, fixed=fixed)[0]
+    if thorough:
+        fc.run_and_validate(ctx, exe, fixedprogs, WHAT, 'model programs, random schedules', n=40, seed=ctx.seed + 20, pct=3,
+                            spurious=True, fixed=fixed)
+    tr = fc.run_and_validate(ctx, exe, progs_p + fixedprogs + progs_q, WHAT,
+                             'model programs + random programs: real ThreadPool TaskSet NewThreadInvoker | manual queue '
+                             'ImmediateInvoker', n=8 if thorough else 4, seed=ctx.seed + 12, pct=3, spurious=True, fixed=fixed)[0]
     if tr:
         ctx.sample_trace(tr, 10, skip=40)
     ctx.assumptions += fc.ASSUME
